@@ -782,6 +782,51 @@ def scan_templates(H, kwargs):
     return sites
 
 
+
+# ------------------------------------------------------------------ registration sites (Schemas.classes_by_name overwrites)
+def scan_registrations(H):
+    """Every dict display `{**schemas.classes_by_name, K: V}` (a new registry in which K is (re)bound) is a registration site.
+    fresh    : an earlier `if K in schemas.classes_by_name:` in the function unconditionally returns (first registration only)
+    compat   : such an `if` rejects (returns) under a nested condition (a different class of that name is an error)
+    sticky   : V was last assigned from evolve(V, kw=<constant>, ...) - the stored copy does not depend on the other uses
+    overwrite: anything else (last registration wins) => unsafe."""
+    sites = []
+    for rel, mod in sorted(H.files.items()):
+        for fd in ast.walk(mod):
+            if not isinstance(fd, (ast.FunctionDef, ast.AsyncFunctionDef)):
+                continue
+            for n in ast.walk(fd):
+                if not isinstance(n, ast.Dict):
+                    continue
+                spread = [v for k, v in zip(n.keys, n.values) if k is None and isinstance(v, ast.Attribute) and v.attr == "classes_by_name"
+                          and isinstance(v.value, ast.Name) and v.value.id == "schemas"]
+                if not spread:
+                    continue
+                for k, v in zip(n.keys, n.values):
+                    if k is None:
+                        continue
+                    ksrc = src(k)
+                    kind = "overwrite"
+                    for st in ast.walk(fd):
+                        if isinstance(st, ast.If) and st.lineno < n.lineno and isinstance(st.test, ast.Compare) and len(st.test.ops) == 1 and isinstance(st.test.ops[0], ast.In) \
+                                and src(st.test.left) == ksrc and src(st.test.comparators[0]) == "schemas.classes_by_name":
+                            if st.body and isinstance(st.body[-1], ast.Return):
+                                kind = "fresh"
+                            elif any(isinstance(x, ast.Return) for x in ast.walk(st)):
+                                kind = "compat"
+                    if kind == "overwrite" and isinstance(v, ast.Name):
+                        last = None
+                        for st in ast.walk(fd):
+                            if isinstance(st, ast.Assign) and st.lineno < n.lineno and any(isinstance(t, ast.Name) and t.id == v.id for t in st.targets):
+                                if last is None or st.lineno > last.lineno:
+                                    last = st
+                        if last is not None and isinstance(last.value, ast.Call) and H.base_name(last.value.func) == "evolve" and len(last.value.args) == 1 \
+                                and isinstance(last.value.args[0], ast.Name) and last.value.args[0].id == v.id and last.value.keywords \
+                                and all(kw.arg is not None and isinstance(kw.value, ast.Constant) for kw in last.value.keywords):
+                            kind = "sticky"
+                    sites.append(dict(file=rel, line=n.lineno, key=ksrc, kind=kind))
+    return sites
+
 # ------------------------------------------------------------------ emit
 def coq_str(s):
     return "[" + "; ".join(str(ord(c)) for c in s) + "]%N" if s else "(@nil N)"
@@ -818,10 +863,10 @@ def collect():
     return out
 
 
-def generate(sites):
+def generate(sites, regs=()):
     eff = {"none": "ENone", "diag": "EDiag", "output": "EOutput"}
     lines = ["(* GENERATED by harness/translate/gen_loops.py from the templates and the Python sources under openapi_python_client/. Do not edit. *)\n",
-             "From Coq Require Import NArith List Bool.\nImport ListNotations.\nRequire Import OPC.Order.\n",
+             "From Coq Require Import NArith List Bool.\nImport ListNotations.\nRequire Import OPC.Order OPC.Registry.\n",
              "Definition gen_loops : list loop_site := [\n"]
     ents = []
     for s in sites:
@@ -829,6 +874,11 @@ def generate(sites):
             coq_str(s["file"]), s["line"], coq_str(s["iter"]), "true" if s["sorted"] else "false", "true" if s["known"] else "false", eff[s["effect"]],
             s["file"].replace("*)", "* )"), s["line"], s["iter"].replace("*)", "* )").replace("(*", "( *").replace('"', "'")))
     lines.append(";\n".join(ents))
+    lines.append("\n].\n")
+    rk = {"fresh": "RFresh", "compat": "RCompat", "sticky": "RSticky", "overwrite": "ROverwrite"}
+    lines.append("Definition gen_registrations : list reg_site := [\n")
+    lines.append(";\n".join("  {| rs_file := %s; rs_line := %d%%N; rs_kind := %s |}  (* %s:%d %s *)" % (coq_str(r["file"]), r["line"], rk[r["kind"]], r["file"], r["line"],
+                                                                                                   r["key"].replace("*)", "* )").replace("(*", "( *").replace('"', "'")) for r in regs))
     lines.append("\n].\n")
     return "".join(lines)
 
@@ -848,11 +898,17 @@ def write_if_changed(path, text):
 
 if __name__ == "__main__":
     sites = collect()
+    _H = Hints()
+    _H.load()
+    regs = scan_registrations(_H)
     if "--json" in sys.argv:
-        print(json.dumps(sites, indent=1))
+        print(json.dumps({"sites": sites, "registrations": regs}, indent=1))
         sys.exit(0)
+    if not regs:
+        print("gen_loops: implausible result (no registration site of Schemas.classes_by_name found)")
+        sys.exit(1)
     if not any(s["kind"] == "jinja" for s in sites) or not any(s["kind"] == "py" for s in sites):
         print("gen_loops: implausible result (no template sites or no python sites)")
         sys.exit(1)
-    changed = write_if_changed(os.path.join(HERE, "..", "..", "coq", "gen", "GenLoops.v"), generate(sites))
-    print("GenLoops.v", "rewritten" if changed else "unchanged", "(%d sites, %d unsorted, %d unknown)" % (len(sites), sum(not s["sorted"] for s in sites), sum(not s["known"] for s in sites)))
+    changed = write_if_changed(os.path.join(HERE, "..", "..", "coq", "gen", "GenLoops.v"), generate(sites, regs))
+    print("GenLoops.v", "rewritten" if changed else "unchanged", "(%d sites, %d unsorted, %d unknown; %d registration sites: %s)" % (len(sites), sum(not s["sorted"] for s in sites), sum(not s["known"] for s in sites), len(regs), ",".join(r["kind"] for r in regs)))
